@@ -251,7 +251,7 @@ ltostr(char *restrict buf, size_t bsz, long int v,
 		*bp++ = C(x);
 	}
 	/* fill up with padding */
-	if (UNLIKELY(pad)) {
+	if (UNLIKELY(pad == DT_SPPAD_ZERO || pad == DT_SPPAD_SPC)) {
 		static const char pads[] = " 0";
 		const char p = pads[2U - pad];
 
